@@ -8,6 +8,7 @@ import (
 	"os"
 	"path/filepath"
 	"sort"
+	"strconv"
 	"strings"
 
 	"verif/harness/core"
@@ -86,6 +87,8 @@ func c20Gen(r *core.Rng) c20case {
 				v = core.Pick(r, k.Vars)[0]
 			} else if r.Chance(15) {
 				v = "-"
+			} else if r.Chance(2) {
+				v = "+" // a command that prints 2 MiB on each stream
 			}
 			t.UseVar = append(t.UseVar, v)
 		}
@@ -116,18 +119,30 @@ func (k c20case) varValue(name string) string {
 // cmdText returns the command as written (tpl=true) or after substitution.
 func (k c20case) cmdText(t c20task, i int, logPath string, tpl bool) string {
 	tag := ""
-	if v := t.UseVar[i]; v != "" && v != "-" {
+	if v := t.UseVar[i]; v != "" && v != "-" && v != "+" {
 		if tpl {
 			tag = ".{{." + v + "}}"
 		} else {
 			tag = "." + k.varValue(v)
 		}
 	}
+	if t.UseVar[i] == "+" {
+		// 16 bytes doubled 17 times: 2 MiB and a newline on stdout, 2 MiB on stderr, built inside the shell
+		return fmt.Sprintf("printf '%%s\\n' %s.%d >> %s && s=0123456789abcdef && s=$s$s$s$s && s=$s$s$s$s && s=$s$s$s$s && s=$s$s$s$s && s=$s$s$s$s && s=$s$s$s$s && s=$s$s$s$s && s=$s$s$s$s && s=$s$s && printf '%%s\\n' \"$s\" && printf '%%s' \"$s\" >&2", c20ascii(t.Name), i, logPath)
+	}
 	if t.UseVar[i] == "-" {
 		// a command that prints nothing at all
 		return fmt.Sprintf("printf '%%s\\n' %s.%d >> %s", c20ascii(t.Name), i, logPath)
 	}
 	return fmt.Sprintf("printf '%%s\\n' %s.%d >> %s && printf '%%s\\r\\n' 'O.%s.%d%s \"q\" \\b' && printf '\\033[31mred\\033[0m\\a\\n' && printf '%%s\\n' 'E.%s.%d' >&2", c20ascii(t.Name), i, logPath, c20ascii(t.Name), i, tag, c20ascii(t.Name), i)
+}
+
+// c20q quotes a stream for a report, long ones by length and ends.
+func c20q(s string) string {
+	if len(s) <= 300 {
+		return strconv.Quote(s)
+	}
+	return fmt.Sprintf("(%d bytes) %q...%q", len(s), s[:40], s[len(s)-40:])
 }
 
 // c20ascii: command text must be ASCII, task names need not be.
@@ -328,7 +343,7 @@ func c20Judge(c *core.Ctx, k c20case, res *core.ShardResult) (vs []core.Violatio
 			for i, cr := range r.Results {
 				wantCmd := k.cmdText(*t, i, sb.Log, false)
 				tag := ""
-				if v := t.UseVar[i]; v != "" && v != "-" {
+				if v := t.UseVar[i]; v != "" && v != "-" && v != "+" {
 					tag = "." + k.varValue(v)
 				}
 				wantOut := fmt.Sprintf("O.%s.%d%s \"q\" \\b\r\n\x1b[31mred\x1b[0m\a\n", c20ascii(t.Name), i, tag)
@@ -336,8 +351,13 @@ func c20Judge(c *core.Ctx, k c20case, res *core.ShardResult) (vs []core.Violatio
 				if t.UseVar[i] == "-" {
 					wantOut, wantErr = "", ""
 				}
+				if t.UseVar[i] == "+" {
+					wantErr = strings.Repeat("0123456789abcdef", 1<<17)
+					wantOut = wantErr + "\n"
+					res.Count("command_records_with_2MiB_streams", 1)
+				}
 				if cr.Cmd != wantCmd || cr.Stdout != wantOut || cr.Stderr != wantErr || cr.Status != 0 {
-					bad("command-record", "round %d: task %s command %d is reported as cmd=%q stdout=%q stderr=%q status=%d; want cmd=%q stdout=%q stderr=%q status=0", round, r.Task, i, cr.Cmd, cr.Stdout, cr.Stderr, cr.Status, wantCmd, wantOut, wantErr)
+					bad("command-record", "round %d: task %s command %d is reported as cmd=%q stdout=%s stderr=%s status=%d; want cmd=%q stdout=%s stderr=%s status=0", round, r.Task, i, cr.Cmd, c20q(cr.Stdout), c20q(cr.Stderr), cr.Status, wantCmd, c20q(wantOut), c20q(wantErr))
 					return false
 				}
 				res.Count("command_records_checked", 1)
